@@ -85,7 +85,7 @@ func runC05Faults(f *common.Flags, res *common.Result, m *mdl) string {
 		}
 	}
 	// goroutines sharing one Cache value, each looking up an intact entry
-	nsh := 0
+	nsh, nrs := 0, 0
 	{
 		w, err := startWorker(shim)
 		if err == nil {
@@ -103,13 +103,18 @@ func runC05Faults(f *common.Flags, res *common.Result, m *mdl) string {
 					if sc.Shared {
 						rn.one(sc, "shared-handle")
 						nsh++
+					} else if sc.Restore {
+						// an entry stored before, re-stored with the same bytes while it is looked up: it was
+						// neither overwritten with other data, nor trimmed, nor damaged -- the lookup must hit
+						rn.one(sc, "restore-same")
+						nrs++
 					}
 				}
 			}
 		}
 	}
 	rp := runRepeats(f, res, shim, true)
-	return fmt.Sprintf("%d fault scenarios (every file operation of Put and of PutBytes made to fail / to be short, from new, overwritten, re-stored, shared, partial and damaged stores; a call that returns nil must be followed by exact GetBytes / GetFile, every lookup keeps its checksum / size guarantee, every call that returns leaves the descriptors it found); %d replayed schedules of goroutines sharing ONE Cache value, each looking up an intact entry (must hit, with the stored bytes); %s", len(scs), nsh, strings.TrimSpace(rp))
+	return fmt.Sprintf("%d fault scenarios (every file operation of Put and of PutBytes made to fail / to be short, from new, overwritten, re-stored, shared, partial and damaged stores; a call that returns nil must be followed by exact GetBytes / GetFile, every lookup keeps its checksum / size guarantee, every call that returns leaves the descriptors it found); %d replayed schedules of goroutines sharing ONE Cache value, each looking up an intact entry (must hit, with the stored bytes); %d replayed schedules of a re-store of identical content at every operation boundary of a lookup of that id and vice versa (must hit); %s", len(scs), nsh, nrs, strings.TrimSpace(rp))
 }
 
 // replayBorrowed re-executes a finding of the machinery borrowed from C12 / C11 (fault scenario,
